@@ -5,6 +5,8 @@ sys.path.insert(0, os.path.join(os.path.dirname(os.path.abspath(__file__)), 'vx'
 import registry
 
 TEXT = {
+ 'C14': ('Deductive proof (Verus) of the real Reconnect::{poll_ready,call} and ResponseFuture::poll as a state machine, inductive over ANY history of connector/connection outcomes (loop invariant, no bound): Reconnect implements tower\'s ready/call contract (call never reaches its panic), a connect failure is returned at once only by an eager never-connected channel and otherwise parked with the state reset to Idle (so the next poll_ready starts a fresh connect), a parked error is handed to exactly one call and cleared.',
+         'Partial: Buffer worker, hyper, ConnectError->UNAVAILABLE mapping and liveness are outside reach. Assumed: tower Service contract (call only after Ready(Ok)), Future one-poll contract.'),
  'C09': ('Deductive proof (Verus) on the real try_parse_grpc_timeout (exactly the spec-conformant values - 1..8 ASCII digits and a unit - are parsed, to exactly the duration they denote; everything else is an error, never a panic or overflow), duration_to_grpc_timeout (the written value is conformant, never longer than requested, loses less than one unit), GrpcTimeout::call (deadline == the shorter of header and configured timeout, malformed header ignored) and ResponseFuture::poll (a finished call wins; timeout only when the timer fired).',
          'Partial: timers/virtual time and the TimeoutExpired->CANCELLED mapping are outside reach. Assumed std contracts for str::parse::<u64>, split_at, integer Display.'),
  'C08': ('Deductive proof (Verus) on the real metadata code: into_sanitized_headers strips exactly the six reserved names and keeps every other key with its value sequence (loop invariant over the real GRPC_RESERVED_HEADERS table); Request/Response::into_http and Status::add_header emit user metadata only through it; Ascii/Binary::is_valid_key partition the keys by the -bin suffix; typed accessors (get/get_bin/remove/insert/append and their _bin variants) and Iter::next never cross the partition; Binary values are base64 on the wire and decode to the original bytes for padded and unpadded input (lemma over the b64 axioms).',
